@@ -11,8 +11,8 @@ WRAP = ["-Wl,--wrap=" + s for s in ("getc", "fgetc", "fread", "fseek", "_ZNSi4pe
 # FMT -> (name, libs, floor quick, floor thorough)
 # PNG (C11_FMT=3) could not be registered on the pinned tree: a truncated PNG never terminated inside libpng through *every*
 # device (GIL's read callback ignored short reads) and flooded the log; registered since the fix: commit 7ce10e0.
-FORMATS = [(0, "bmp", [], 12000, 12000), (1, "pnm", [], 4000, 4000), (2, "targa", [], 4500, 4500),
-           (3, "png", IOLIBS, 1000, 1000), (4, "jpeg", IOLIBS, 2500, 2500), (5, "tiff", IOLIBS, 7000, 7000)]
+FORMATS = [(0, "bmp", [], 16000, 16000), (1, "pnm", [], 6500, 6500), (2, "targa", [], 8000, 8000),
+           (3, "png", IOLIBS, 7000, 7000), (4, "jpeg", IOLIBS, 4000, 4000), (5, "tiff", IOLIBS, 10000, 10000)]
 
 CFG = dict(
     level="exploration",
@@ -46,8 +46,7 @@ CFG = dict(
     assumptions=["accepted outcomes: return, std::ios_base::failure, any other std::exception (counted), bad_alloc from the 256 MiB cap",
                  "step budget: reads returning nothing at EOF <= 4096 + 8*min(declared pixels + declared palette entries, 4Mi); "
                  "bytes delivered + read calls <= 64 + 16*(len + min(4*declared pixels, 256Mi)); 'declared' comes from the harness's own parse of the presented bytes",
-                 "glibc does not call a FILE* cookie again after EOF: a decoder spinning at EOF on a FILE* is only caught by the 200 s CPU safety net (key monitor.cpu-safety-net)",
-                 "headers declaring more than 2 Mi pixels run a reduced entry set (info, read_image, scanline); the scanline loop pulls at most 70000 rows",
+                                  "headers declaring more than 2 Mi pixels run a reduced entry set (info, read_image, scanline); the scanline loop pulls at most 70000 rows",
                  "the in-process differential needs ASAN_OPTIONS detect_stack_use_after_return=0 (set for these runs)",
                  "a decoder that accepts a truncated file and returns an image is counted (ok-on-truncated.*), not alarmed",
                  "the digest of read_image_info and of the scanline reader covers every member of the backend's _info struct (PNG also with all "
@@ -57,6 +56,21 @@ CFG = dict(
                  "that comes back short must end in an exception -- judged for read_image_info and for every entry point when the input ends inside "
                  "the fixed header (54/26/18 bytes); independent of what the leftover bytes are (the pre-fill differential is blind when the buffer "
                  "still holds the previous field)",
+                 "stdio-level counters (wrapped getc/fgetc/fread/fseek) make the FILE* and file-name devices countable after EOF (glibc does not call the "
+                 "cookie / kernel again): the same step budget applies to all three devices; the std::istream device runs first in every case",
+                 "enum.* families: every enumerated / count-like / bit-field header field of the representative seeds x every value of its small range "
+                 "(BMP bpp 0..33, compression 0..8, header sizes, colour counts; TARGA descriptor 0..255, depth 0..33, image/colour-map types; PNG IHDR "
+                 "bytes; JPEG precision, component ids / sampling factors / table selectors, Ss/Se/AhAl, DRI; TIFF compression, photometric, orientation, "
+                 "planar, sample format, bits/samples per pixel, predictor, tile sizes ...); BMP bit-field masks: all splits of 16 bits into three "
+                 "contiguous masks (every fifth in all six orders), gapped / 32-bit / alpha / non-contiguous / overlapping masks, masks carried by "
+                 "40+12/16, 52, 56, 108, 124-byte headers under BI_RGB / BI_BITFIELDS / BI_ALPHABITFIELDS; TARGA every depth 1..32 x image type; PNM "
+                 "maxval 2^k-1, 2^k, 2^k+1",
+                 "seeds with syntax the writers never emit: PNM comments in every legal header position / CR / CRLF / tabs / comment in the raster; BMP gap "
+                 "before the pixel data, masks in a v3 header, BI_ALPHABITFIELDS; TARGA id field + colour map on true-colour, extension area + footer; "
+                 "PNG with every ancillary chunk the backend has a getter for; JPEG progressive / restart markers / optimised tables / 4:4:4 / 4:1:1 / "
+                 "CMYK written by libjpeg; TIFF big-endian / separate planes / several directories / one-row strips written by libtiff",
+                 "for the PNG / JPEG / TIFF glue the scanline entry runs in every control / enum / targeted case and in one truncation / boundary-value / "
+                 "random mutation in four (quick); seeds marked sparse (every truncation dies at the open finding F60) are truncated at 24 head + strided points",
                  "ignorable-data-changes-result: a valid file with an inserted JPEG COM/APPn segment (2..65535 bytes, also before SOS and several in a "
                  "row), PNG tEXt/zTXt/private chunk (up to 70000 bytes) or private TIFF tag (up to 70000 bytes) must decode to the pixels of the file "
                  "without it through every device",
